@@ -113,6 +113,43 @@ Section PREP.
   Definition prep (q : select) : select := prep_sel prep_e [] q.
 End PREP.
 
+(* ---------- every WithRef of a model SELECT carries the query its alias is bound to ----------
+   SqlEval evaluates the query a WRef carries; the text sent to ClickHouse binds the alias in the WITH
+   list of the outermost SELECT (add_with hoists, first binding of an alias wins). wrefs_bound compares,
+   for every WRef reachable in the tree, the text of the carried query with the text of the bound one. *)
+Section WREFS.
+  Section WSEL.
+    Variable we : expr -> list (string * select).
+    Fixpoint wrefs_sel (q : select_ expr) {struct q} : list (string * select) :=
+      let fix wwiths (ws : list (string * select_ expr)) : list (string * select) :=
+          match ws with [] => [] | (_, w) :: r => (wrefs_sel w ++ wwiths r)%list end in
+      let fix wunions (us : list (select_ expr)) : list (string * select) :=
+          match us with [] => [] | u :: r => (wrefs_sel u ++ wunions r)%list end in
+      let o (x : option expr) := match x with Some e => we e | None => [] end in
+      (flat_map we (s_cols q) ++ o (s_from q) ++ o (s_where q) ++ o (s_prewhere q) ++ o (s_having q)
+       ++ flat_map we (s_groupby q) ++ flat_map we (s_orderby q) ++ o (s_limit q) ++ o (s_offset q)
+       ++ flat_map (fun j => (we (snd (fst j)) ++ o (snd j))%list) (s_joins q)
+       ++ wwiths (s_withs q) ++ wunions (s_unions q))%list.
+  End WSEL.
+  Fixpoint wrefs_e (e : expr) {struct e} : list (string * select) :=
+    match e with
+    | WRef a q => ((a, q) :: wrefs_sel wrefs_e q)%list
+    | SubQ q => wrefs_sel wrefs_e q
+    | LOp _ cl | Fn _ cl | Sep _ cl | BitSetAnd cl => flat_map wrefs_e cl
+    | Not x | NotNull x | Col x _ | Ord x _ => wrefs_e x
+    | In l r => (wrefs_e l ++ flat_map wrefs_e r)%list
+    | Idx x k => (wrefs_e x ++ wrefs_e k)%list
+    | _ => []
+    end.
+End WREFS.
+Definition sel_text (q : select) : option string :=
+  let '(t, st) := render_select q (add_skip no_opts) rst0 in if r_err st then None else Some t.
+Definition wrefs_bound (top : select) : bool :=
+  forallb (fun aq => match assoc_sel (fst aq) (s_withs top), sel_text (snd aq) with
+                     | Some b, Some t => match sel_text b with Some tb => String.eqb t tb | None => false end
+                     | _, _ => false end)
+          (wrefs_sel wrefs_e top).
+
 (* ---------- oracle tables computed by the harness with Go's regexp / strconv ---------- *)
 Definition re_table := list (string * string * bool).          (* subject, pattern, regexp.MatchString *)
 Fixpoint re_lookup (t : re_table) (s p : string) : bool :=
@@ -272,6 +309,7 @@ Record cverdict := {
   cv_id : Z; cv_fragment : bool; cv_width : bool; cv_ctx_ok : bool;
   cv_text_ok : bool;               (* render (prep tree) = sc_sql *)
   cv_model_sel : bool;             (* the model planners produce a SELECT *)
+  cv_wrefs : bool;                 (* ... whose WithRefs carry the queries their aliases are bound to *)
   cv_dbs : list dbverdict
 }.
 
@@ -285,6 +323,7 @@ Definition check_case (s : scase) : cverdict :=
   {| cv_id := sc_id s; cv_fragment := in_fragment q; cv_width := width_guard q; cv_ctx_ok := ctx_ok c;
      cv_text_ok := text_ok;
      cv_model_sel := match msel with Some _ => true | None => false end;
+     cv_wrefs := match msel with Some m => wrefs_bound m | None => true end;
      cv_dbs := map (fun d =>
        let '(vi, got) := judge re pf tie_id q c d impl in
        let '(vr, _) := judge re pf tie_rev q c d impl in
